@@ -443,9 +443,16 @@ def check(ctx):
                'the sorted candidate list is not the downstream list passed through the priority sorter', file=PFC.mod.path, line=gs.lineno)
     nloops = 0
     for m, c_, f in inv.functions(P):
-        for lp in [n for n in ast.walk(f) if isinstance(n, ast.For)]:
+        class _Gen:        # `any(d.give_part(p) for d in <candidates>)`: the generator is the hand-over loop
+            def __init__(self, comp):
+                g_ = comp.generators[0]
+                self.target, self.iter, self.lineno, self.comp = g_.target, g_.iter, comp.lineno, comp
+        loops_ = [n for n in ast.walk(f) if isinstance(n, ast.For)] + \
+                 [_Gen(n) for n in ast.walk(f) if isinstance(n, (ast.GeneratorExp, ast.ListComp)) and len(n.generators) == 1]
+        for lp in loops_:
             tgt = lp.target.id if isinstance(lp.target, ast.Name) else None
-            offers = [x for x in ast.walk(lp) if isinstance(x, ast.Call) and call_attr(x) == 'give_part' and isinstance(x.func.value, ast.Name) and x.func.value.id == tgt]
+            offers = [x for x in ast.walk(lp.comp if isinstance(lp, _Gen) else lp) if isinstance(x, ast.Call) and call_attr(x) == 'give_part' and isinstance(x.func, ast.Attribute)
+                      and isinstance(x.func.value, ast.Name) and x.func.value.id == tgt]
             if not offers:
                 continue
             nloops += 1
@@ -462,7 +469,7 @@ def check(ctx):
                     while p_ is not None and not isinstance(p_, (ast.For, ast.While, ast.FunctionDef)):
                         p_ = m.parents.get(p_)
                     return p_
-                if len(dfs_) == 1 and _encl_loop(dfs_[0]) is _encl_loop(lp):
+                if len(dfs_) == 1 and _encl_loop(dfs_[0]) is _encl_loop(lp.comp if isinstance(lp, _Gen) else lp):
                     it_ = dfs_[0].value
             if ast.unparse(it_) != 'self.get_sorted_downstream_list()':
                 o.fail(P, where, lp.iter, 'a hand-over loop does not try the downstream devices in priority order', file=m.path, line=lp.lineno)
